@@ -2,6 +2,7 @@
    harness/inproc/h_h1resp.c -/
 import LtVerif.Model.H1Resp
 import LtVerif.Model.NetWrite
+import LtVerif.Model.H1End
 namespace Driver
 open LtVerif LtVerif.B
 
@@ -135,10 +136,68 @@ def clenLine (n : String) : String :=
     else toHex (chunkLenLine k) ++ "<file>" ++ toHex [cr, lf]
   | none => "bad-op"
 
+/-! ### connection end (Model/H1End.lean): ops `rend`, `pipe` -/
+open LtVerif.H1End in
+def stName : CState → String
+  | .requestStart => "rs" | .close => "cl" | .connect => "co"
+
+/-- descriptor modes of the harness: 0 connected socketpair, 1 unconnected socket (shutdown fails),
+    2 negated descriptor (con->fd < 0), 3 unconnected socket with is_ssl_sock (shutdown skipped);
+    result (fdOk, shutOk, a peer can observe end-of-stream) -/
+def connMode : Nat → Option (Bool × Bool × Bool)
+  | 0 => some (true, true, true) | 1 => some (true, false, false)
+  | 2 => some (false, true, true) | 3 => some (true, true, false) | _ => none
+
+open LtVerif.H1End in
+def endLine (e : EndOut) (peer : Bool) : String :=
+  stName e.state ++ " ka=0 done=" ++ toString e.done ++ " sep=" ++ b01 e.sepWq ++ " fin=" ++ b01 e.fin ++
+  " closed=" ++ b01 e.closed ++ " pend=" ++ toString e.pending ++ " eof=" ++ b01 (peer && (e.fin || e.closed))
+
+open LtVerif.H1End in
+def rendLine (h2 status reqLen reqIn isErr ka sep mode pending : String) : String :=
+  match h2.toNat?, status.toNat?, reqLen.toInt?, reqIn.toInt?, isErr.toNat?, ka.toInt?, sep.toNat?,
+        mode.toNat?.bind connMode, pending.toNat? with
+  | some h, some st, some rl, some ri, some er, some k, some sp, some (fdOk, shutOk, peer), some pn =>
+    endLine (responseEnd { h2 := h ≠ 0, status := st, reqLen := rl, reqIn := ri, isError := er ≠ 0,
+                           keepAlive := k, sepWq := sp ≠ 0, fdOk := fdOk, shutOk := shutOk, pending := pn }) peer
+  | _, _, _, _, _, _, _, _, _ => "bad-op"
+
+open LtVerif.H1End in
+def parseReq (idx : Nat) (t : String) : Option Req :=
+  match t.splitOn "," with
+  | [len, ka, wrote, rl, ri, st] =>
+    match len.toNat?, ka.toNat?, wrote.toInt?, rl.toInt?, ri.toInt?, st.toNat? with
+    | some l, some k, some w, some a, some b, some s =>
+      some { msg := patBytes idx l, ka := k ≠ 0, status := s,
+             wrote := if w < 0 then none else some w.toNat, reqLen := a, reqIn := b }
+    | _, _, _, _, _, _ => none
+  | _ => none
+
+def parseReqs : Nat → List String → Option (List LtVerif.H1End.Req)
+  | _, [] => some []
+  | i, t :: ts =>
+    match parseReq i t, parseReqs (i + 1) ts with
+    | some q, some qs => some (q :: qs)
+    | _, _ => none
+
+open LtVerif.H1End in
+def pipeLine (mode : String) (toks : List String) : String :=
+  match mode.toNat?.bind connMode, parseReqs 0 toks with
+  | some (fdOk, shutOk, true), some qs =>
+    let r := connRun fdOk shutOk qs
+    "n=" ++ toString r.answered ++ " wire=" ++ toString r.wire.length ++ ":" ++ hex8 (adler32 r.wire) ++ " " ++
+    (match r.final with
+     | none => "open"
+     | some e => endLine e true)
+  | _, _ => "bad-op"
+
 end H1RespDrv
 
 open H1RespDrv in
 def h1respLine : List String → String
+  | ["rend", h2, status, reqLen, reqIn, isErr, ka, sep, mode, pending] =>
+    rendLine h2 status reqLen reqIn isErr ka sep mode pending
+  | "pipe" :: mode :: toks => if toks.isEmpty then "bad-op" else pipeLine mode toks
   | "nw" :: b :: max :: sched :: chunks => if chunks.isEmpty then "bad-op" else nwLine b max sched chunks
   | "prep" :: status :: meth :: ver :: fin :: ka :: flags :: hdrs :: qbody :: pieces =>
     prepLine status meth ver fin ka flags hdrs qbody pieces
